@@ -208,12 +208,12 @@ def run(ctx):
     rd = ctx.rule('R-ROUTE.drop', '(shared with C05) a cancelled head (ReadyCore, coroutine PromiseType, PromiseCore) '
                   'stores StopTag on every path of Drop()', minimum=6)
     for cfg, fb in sorted(fbs.items()):
-        lib_head.check(ctx, fb, cfg, rh, None)
-        check_start(ctx, fb, rs)
-        check_rewind(ctx, fb, rr)
-        check_lazy_attach(ctx, fb, rl)
-        check_nostart(ctx, fb, rn)
-        check_cancel(ctx, fb, rc)
+        ctx.guard(lambda: lib_head.check(ctx, fb, cfg, rh, None))
+        ctx.guard(lambda: check_start(ctx, fb, rs))
+        ctx.guard(lambda: check_rewind(ctx, fb, rr))
+        ctx.guard(lambda: check_lazy_attach(ctx, fb, rl))
+        ctx.guard(lambda: check_nostart(ctx, fb, rn))
+        ctx.guard(lambda: check_cancel(ctx, fb, rc))
         from rules import c05
         if c05.check_drop_stop(ctx, fb, rd) < (3 if cfg != 'K17' else 2):
             ctx.broken('Drop() of PromiseCore / PromiseType / ReadyCore not found in %s' % cfg)
